@@ -114,8 +114,10 @@ structure DecState where
 deriving Repr, DecidableEq
 
 inductive DecRes where
-  /-- `f = none`: the input ended after dynamic table size updates only (no field decoded) -/
+  /-- `f = none`: the input ended after dynamic table size updates only (no field decoded) — in Go
+  `ErrUnexpectedSize` with no octets handed back -/
   | ok (st : DecState) (f : Option Field) (rest : Bytes)
+  /-- `ErrUnexpectedSize` with the octets of an unfinished representation (`Dec.skipUpdates`) -/
   | needMore
   | err
 deriving Repr, DecidableEq
@@ -187,23 +189,25 @@ def nextFuel : Nat → DecState → Bool → Nat → Bytes → DecRes
 def Dec.next (st : DecState) (blockStart : Bool) (fieldsProcessed : Nat) (b : Bytes) : DecRes :=
   nextFuel (b.length + 1) st blockStart fieldsProcessed b
 
-/-- the decoder state a *failed* `nextField` call leaves behind: the dynamic table size updates it
-accepted before it ran out of octets have already been applied (`hp.maxTableSize = n; hp.shrink()`) -/
-def updFuel : Nat → DecState → Bool → Nat → Bytes → DecState
-  | 0, st, _, _, _ => st
-  | _, st, _, _, [] => st
+/-- what a `nextField` call that runs out of octets (`ErrUnexpectedSize`) leaves behind and hands back: the
+decoder state — the dynamic table size updates it accepted before that have been applied
+(`hp.maxTableSize = n; hp.shrink()`) — and `start`, the octets from the representation it could not finish on,
+without those updates -/
+def skipFuel : Nat → DecState → Bool → Nat → Bytes → DecState × Bytes
+  | 0, st, _, _, b => (st, b)
+  | _, st, _, _, [] => (st, [])
   | fuel + 1, st, blockStart, fieldsProcessed, c :: rest =>
     if 32 ≤ c ∧ c < 64 then
       match readInt 5 (c :: rest) with
       | .ok n r =>
-        if !blockStart || fieldsProcessed > 0 then st
-        else if n > st.limit then st
-        else updFuel fuel { st with maxSize := n, dyn := evict st.dyn n } blockStart fieldsProcessed r
-      | _ => st
-    else st
+        if !blockStart || fieldsProcessed > 0 then (st, c :: rest)
+        else if n > st.limit then (st, c :: rest)
+        else skipFuel fuel { st with maxSize := n, dyn := evict st.dyn n } blockStart fieldsProcessed r
+      | _ => (st, c :: rest)
+    else (st, c :: rest)
 
-def Dec.afterUpdates (st : DecState) (blockStart : Bool) (fieldsProcessed : Nat) (b : Bytes) : DecState :=
-  updFuel (b.length + 1) st blockStart fieldsProcessed b
+def Dec.skipUpdates (st : DecState) (blockStart : Bool) (fieldsProcessed : Nat) (b : Bytes) : DecState × Bytes :=
+  skipFuel (b.length + 1) st blockStart fieldsProcessed b
 
 /-- SETTINGS_HEADER_TABLE_SIZE applied to a decoder (`SetMaxTableSize` on `dec`; not called by the
 server today, which keeps the default 4096 it advertises) -/
@@ -276,12 +280,15 @@ def Enc.append (st : EncState) (f : Field) (store : Bool) : EncState × Bytes :=
 
 /-! ## header-block reassembly: the HPACK part of `serverConn.handleHeaderFrame`
 
-`prev` is `strm.previousHeaderBytes`: the octets of a field that the previous frame cut short. -/
+`prev` is `strm.previousHeaderBytes`: the octets of a field that the previous frame cut short;
+`seen` is `strm.fieldSeen`: a field of the block in progress has been decoded (a dynamic table size
+update is no longer allowed). -/
 namespace Block
 
 structure State where
   dec : DecState := {}
   prev : Bytes := []
+  seen : Bool := false
 deriving Repr, DecidableEq
 
 inductive Res where
@@ -290,24 +297,27 @@ inductive Res where
   | err (fields : List Field)
 deriving Repr, DecidableEq
 
-/-- the `for len(b) > 0` loop. `hf` is the caller's `HeaderField`, acquired (empty) once per frame and
-reused from field to field: when `nextField` returns without having decoded a field (input that held
-dynamic table size updates only) the loop still hands `hf` on — a field the peer never sent (F05). -/
-def loop : Nat → DecState → Bool → Bool → Nat → Field → Bytes → List Field → Res
-  | 0, dec, _, _, _, _, _, acc => .ok ⟨dec, []⟩ acc
-  | fuel + 1, dec, blockStart, endHeaders, fp, hf, b, acc =>
-    if b.isEmpty then .ok ⟨dec, []⟩ acc
+/-- the `for len(b) > 0` loop. `Dec.next … = .ok dec' none _` is `nextField` returning `ErrUnexpectedSize`
+with no octets: the input ended behind a dynamic table size update, no field is handed on and nothing is
+carried over. `.needMore` is `ErrUnexpectedSize` with the octets of the unfinished representation, which
+are carried over — without the size updates before them, which have been applied. -/
+def loop : Nat → DecState → Bool → Bool → Nat → Bytes → List Field → Res
+  | 0, dec, blockStart, _, fp, _, acc => .ok ⟨dec, [], !blockStart || fp > 0⟩ acc
+  | fuel + 1, dec, blockStart, endHeaders, fp, b, acc =>
+    if b.isEmpty then .ok ⟨dec, [], !blockStart || fp > 0⟩ acc
     else match Dec.next dec blockStart fp b with
-      | .ok dec' (some f) rest => loop fuel dec' blockStart endHeaders (fp + 1) f rest (acc ++ [f])
-      | .ok dec' none rest => loop fuel dec' blockStart endHeaders (fp + 1) hf rest (acc ++ [hf])
-      | .needMore => if endHeaders then .err acc else .ok ⟨Dec.afterUpdates dec blockStart fp b, b⟩ acc
+      | .ok dec' (some f) rest => loop fuel dec' blockStart endHeaders (fp + 1) rest (acc ++ [f])
+      | .ok dec' none _ => .ok ⟨dec', [], !blockStart || fp > 0⟩ acc
+      | .needMore =>
+        if endHeaders then .err acc
+        else .ok ⟨(Dec.skipUpdates dec blockStart fp b).1, (Dec.skipUpdates dec blockStart fp b).2, !blockStart || fp > 0⟩ acc
       | .err => .err acc
 
 /-- one HEADERS (`cont = false`) or CONTINUATION (`cont = true`) payload -/
 def feed (st : State) (cont endHeaders : Bool) (payload : Bytes) : Res :=
-  let blockStart := !cont && st.prev.isEmpty
+  let seen := cont && st.seen
   let b := st.prev ++ payload
-  loop b.length st.dec blockStart endHeaders 0 ⟨[], [], false⟩ b []
+  loop b.length st.dec (!seen) endHeaders 0 b []
 
 end Block
 
